@@ -89,6 +89,8 @@ def measure(scn, H, stats):
             m['F_BADPARAM_pwm_rejected'] += 1
         elif rec['op'] == 'set_load' and rec['exc'] is None:
             m['F_SETLOAD'] += 1
+        elif rec['op'] == 'set_state' and rec['exc'] is None:
+            m['F_SETSTATE'] += 1
         elif rec['op'] == 'branch_off' and rec['exc'] is None:
             m['F_BRANCH'] += 1
         elif rec['op'] == 'other_powertrain':
